@@ -17,6 +17,7 @@ import shutil
 import tempfile
 
 from mc import core, env
+from mc.env import error
 
 BOUNDS = {
     'quick': '6-OID universe (singles and all ordered pairs = 36 contents) x 2 modules; BFS depth 3 from the empty index '
@@ -270,6 +271,61 @@ class BuildIndex(object):
             shutil.rmtree(d, ignore_errors=True)
 
 
+class DamagedIndex(object):
+    name = 'damaged-earlier-index'
+    describe = ('buildIndex() on a directory whose index.json was damaged after an earlier build (an octet that is no UTF-8, a cut, '
+                'another JSON value, an empty file, CR LF line ends, a byte order mark): with and without ignoreErrors / dryRun the '
+                'call returns or raises the package error - nothing else -, and an index that is still readable is built upon')
+
+    DAMAGE = ['bad-octet', 'cut-in-half', 'a-json-list', 'empty', 'crlf-line-ends', 'bom']
+
+    def blocks(self, tier):
+        return [{}]
+
+    def cases(self, block, tier):
+        for dmg in self.DAMAGE:
+            for opts in ({}, {'ignoreErrors': True}, {'dryRun': True}):
+                yield {'damage': dmg, 'opts': opts}
+
+    def run_case(self, case):
+        from pysmi.compiler import MibCompiler
+        from pysmi.writer.localfile import FileWriter
+        cs = contents('quick')
+        base = os.environ.get('VERIF_TMP') or ('/dev/shm' if os.path.isdir('/dev/shm') else None)
+        d = tempfile.mkdtemp(prefix='mcC18d', dir=base)
+        try:
+            comp = MibCompiler(env.shared_parser('smiV2'), env.JsonCodeGen(), FileWriter(d).setOptions(suffix='.json'))
+            comp.buildIndex({'M1': module_status('M1', cs[0])})
+            ip = os.path.join(d, 'index.json')
+            with open(ip, 'rb') as f:
+                blob = f.read()
+            dmg = case['damage']
+            readable = dmg == 'crlf-line-ends'   # (a byte order mark makes the JSON parser give up: damaged)
+            blob = {'bad-octet': blob[:40] + b'\xff' + blob[40:], 'cut-in-half': blob[:len(blob) // 2], 'a-json-list': b'[1, 2]',
+                    'empty': b'', 'crlf-line-ends': blob.replace(b'\n', b'\r\n'), 'bom': b'\xef\xbb\xbf' + blob}[dmg]
+            with open(ip, 'wb') as f:
+                f.write(blob)
+            sig = 'C18|damaged-index|%s%s' % (dmg, ''.join('|' + k for k in sorted(case['opts'])))
+            vs = []
+            try:
+                comp.buildIndex({'M2': module_status('M2', cs[1])}, **case['opts'])
+                got = 'returned'
+            except error.PySmiError:
+                got = 'PySmiError'
+            except Exception as exc:
+                got = 'foreign:' + type(exc).__name__
+                vs.append(('%s|foreign-exception|%s' % (sig, type(exc).__name__), repr(exc)[:200]))
+            if got == 'PySmiError' and case['opts'].get('ignoreErrors'):
+                vs.append(('%s|error-raised-although-errors-are-ignored' % sig, ''))
+            if got == 'returned' and readable and not case['opts']:
+                with open(ip) as f:
+                    doc = f.read()
+                vs += check_state(canon(doc), facts_of('M1', cs[0]) | facts_of('M2', cs[1]), 'C18|damaged-index|%s' % dmg)
+            return got, vs, 2
+        finally:
+            shutil.rmtree(d, ignore_errors=True)
+
+
 class TwoCompilers(object):
     name = 'two-compilers-one-directory'
     describe = ('chains of three buildIndex() calls on ONE scratch directory issued by two MibCompiler objects in every turn-taking '
@@ -468,4 +524,4 @@ class FailedThenGood(object):
             shutil.rmtree(d, ignore_errors=True)
 
 
-FAMILIES = [Bfs(), Pairs(), BuildIndex(), TwoCompilers(), CompileThenIndex(), FailedThenGood()]
+FAMILIES = [Bfs(), Pairs(), BuildIndex(), DamagedIndex(), TwoCompilers(), CompileThenIndex(), FailedThenGood()]
